@@ -132,6 +132,44 @@ MUTANTS = [
     ("cpp-last-threshold-skipped", "gemclus/tree/_utils.cpp",
      "__pyx_t_36 = (__pyx_v_l_split > ((__pyx_v_n_leaf - __pyx_v_min_leaf) - 1));",
      "__pyx_t_36 = (__pyx_v_l_split >= ((__pyx_v_n_leaf - __pyx_v_min_leaf) - 1));", ["C08"]),
+    ("sparse-linear-threshold-initial-lr", "gemclus/sparse/_linear_sparse.py",
+     "            new_W = linear_prox_grad(self.W_, self.alpha * self.optimiser_.learning_rate)",
+     "            new_W = linear_prox_grad(self.W_, self.alpha * self.learning_rate)", ["C06"]),
+    ("sparse-mlp-w1-not-written-back", "gemclus/sparse/_mlp_sparse.py",
+     "        np.copyto(self.W_skip_, new_W_skip)\n        np.copyto(self.W1_, new_W1)",
+     "        np.copyto(self.W_skip_, new_W_skip)", ["C06"]),
+    ("sparse-mlp-restore-misses-w1", "gemclus/sparse/_mlp_sparse.py",
+     "                np.copyto(self.W1_, best_weights[0])\n", "", ["C07"]),
+    ("sparse-selection-tolerance", "gemclus/sparse/_linear_sparse.py",
+     "        return np.nonzero(np.linalg.norm(self.W_, axis=1, ord=2))[0]",
+     "        return np.nonzero(np.linalg.norm(self.W_, axis=1, ord=2) > 1e-3)[0]", ["C06"]),
+    ("check-groups-completion-drops-last", "gemclus/sparse/_base_sparse.py",
+     "new_groups = groups + [[i] for i in range(n_features_in) if i not in all_indices]",
+     "new_groups = groups + [[i] for i in range(n_features_in - 1) if i not in all_indices]", ["C06", "C16"]),
+    ("sparse-mlp-group-prox-skips-alpha-zero", "gemclus/sparse/_mlp_sparse.py",
+     "            new_W_skip, new_W1 = group_mlp_prox_grad(self.groups_, self.W_skip_, self.W1_,\n                                                     self.alpha * self.optimiser_.learning_rate, self.M)",
+     "            new_W_skip, new_W1 = group_mlp_prox_grad(self.groups_, self.W_skip_, self.W1_,\n                                                     self.alpha * self.optimiser_.learning_rate, self.M) if self.alpha > 0 else (self.W_skip_, self.W1_)",
+     ["C06"]),
+    ("path-alpha-additive", "gemclus/sparse/_base_sparse.py", "        alpha *= alpha_multiplier\n", "        alpha += alpha_multiplier\n", ["C07"]),
+    ("path-keep-strict", "gemclus/sparse/_base_sparse.py", "        if iteration_gemini_score >= keep_threshold * best_gemini_score:",
+     "        if iteration_gemini_score > keep_threshold * best_gemini_score:", ["C07"]),
+    ("path-best-strict", "gemclus/sparse/_base_sparse.py",
+     "        if iteration_gemini_score >= best_gemini_score and clf._n_selected_features() == X.shape[1]:",
+     "        if iteration_gemini_score >= best_gemini_score:", ["C07"]),
+    ("path-history-reference-score", "gemclus/sparse/_base_sparse.py", "        geminis.append(iteration_gemini_score)",
+     "        geminis.append(validation_gemini_score)", ["C07"]),
+    ("path-linear-restore-misses-bias", "gemclus/sparse/_linear_sparse.py", "                np.copyto(self.b_, best_weights[1])\n", "", ["C07"]),
+    ("path-min-features-default-one", "gemclus/sparse/_base_sparse.py",
+     "                      f\"Setting it to default: 2\")\n        min_features = 2",
+     "                      f\"Setting it to default: 2\")\n        min_features = 1", ["C07"]),
+    ("path-keep-threshold-not-reset", "gemclus/sparse/_base_sparse.py",
+     "                      f\"to default: 0.9\")\n        keep_threshold = 0.9", "                      f\"to default: 0.9\")", ["C07"]),
+    ("path-loop-ge", "gemclus/sparse/_base_sparse.py", "    while clf._n_selected_features() > min_features:",
+     "    while clf._n_selected_features() >= max(min_features, 1):", ["C07"]),
+    ("path-nan-no-break", "gemclus/sparse/_base_sparse.py", "        if np.isnan(iteration_gemini_score):\n            break\n", "", ["C07"]),
+    ("path-patience-off-by-one", "gemclus/sparse/_base_sparse.py", "        while i < clf.max_iter and patience < max_patience:",
+     "        while i < clf.max_iter and patience <= max_patience:", ["C07"]),
+    ("path-initial-fit-keeps-alpha", "gemclus/sparse/_base_sparse.py", "    clf.set_params(alpha=0)\n", "    clf.set_params(alpha=alpha * 0.5)\n", ["C07"]),
 ]
 
 
